@@ -86,6 +86,39 @@ def build_initial(init: dict) -> bytes:
         out = io.BytesIO()
         D.write_zip(members, out)
         return out.getvalue()
+    if init["deck"] == "gengeneric":
+        prs = pptx.Presentation()
+        prs.slides.add_slide(prs.slide_layouts[6])
+        b = io.BytesIO()
+        prs.save(b)
+        members = D.read_zip(io.BytesIO(b.getvalue()))
+        RELS = "http://schemas.openxmlformats.org/package/2006/relationships"
+        OD = "http://schemas.openxmlformats.org/officeDocument/2006/relationships"
+        CTN = "http://schemas.openxmlformats.org/package/2006/content-types"
+
+        def add_rel(rels, rid, rtype, target):
+            root = etree.fromstring(members[rels]) if rels in members else etree.Element("{%s}Relationships" % RELS, nsmap={None: RELS})
+            el = etree.SubElement(root, "{%s}Relationship" % RELS)
+            el.set("Id", rid), el.set("Type", rtype), el.set("Target", target)
+            members[rels] = etree.tostring(root, xml_declaration=True, encoding="UTF-8", standalone=True)
+        members["customXml/item1.xml"] = b'<?xml version="1.0" encoding="UTF-8" standalone="yes"?>\n<verif:item xmlns:verif="http://example.invalid/verif">kept</verif:item>'
+        members["customXml/itemProps1.xml"] = (b'<?xml version="1.0" encoding="UTF-8" standalone="no"?>\n<ds:datastoreItem ds:itemID="{7B5E2C6A-0000-4000-8000-000000000001}" '
+                                               b'xmlns:ds="http://schemas.openxmlformats.org/officeDocument/2006/customXml"><ds:schemaRefs/></ds:datastoreItem>')
+        add_rel("ppt/_rels/presentation.xml.rels", "rId77", OD + "/customXml", "../customXml/item1.xml")
+        add_rel("customXml/_rels/item1.xml.rels", "rId1", OD + "/customXmlProps", "itemProps1.xml")
+        members["ppt/media/image1.png"] = image_bytes(41)
+        add_rel("ppt/theme/_rels/theme1.xml.rels", "rId1", OD + "/image", "../media/image1.png")
+        ct = etree.fromstring(members["[Content_Types].xml"])
+        if not any(el.get("Extension") == "png" for el in ct):
+            el = etree.Element("{%s}Default" % CTN)
+            el.set("Extension", "png"), el.set("ContentType", "image/png")
+            ct.insert(0, el)
+        el = etree.SubElement(ct, "{%s}Override" % CTN)
+        el.set("PartName", "/customXml/itemProps1.xml"), el.set("ContentType", "application/vnd.openxmlformats-officedocument.customXmlProperties+xml")
+        members["[Content_Types].xml"] = etree.tostring(ct, xml_declaration=True, encoding="UTF-8", standalone=True)
+        out = io.BytesIO()
+        D.write_zip(members, out)
+        return out.getvalue()
     if init["deck"] == "genmany":
         prs = pptx.Presentation()
         s = prs.slides.add_slide(prs.slide_layouts[6])
